@@ -1,0 +1,26 @@
+//go:build verif
+
+// Verification hook (add-only, compiled only with -tags verif): lets the /verif
+// C12 harness run the REAL bpfEndpointManager.extractRules (tier / staged-policy /
+// end-of-tier handling that turns an endpoint's TierInfo list into polprog.Rules)
+// on a bare manager that only holds the policy and profile maps.  Re-exports an
+// unexported method; no behaviour of the package changes.
+
+package intdataplane
+
+import (
+	"github.com/projectcalico/calico/felix/bpf/polprog"
+	"github.com/projectcalico/calico/felix/proto"
+	"github.com/projectcalico/calico/felix/types"
+)
+
+// VerifC12ExtractRules = (&bpfEndpointManager{policies, profiles}).extractRules(tiers, profileNames, direction).
+func VerifC12ExtractRules(policies map[types.PolicyID]*proto.Policy, profiles map[types.ProfileID]*proto.Profile,
+	tiers []*proto.TierInfo, profileNames []string, ingress bool) polprog.Rules {
+	m := &bpfEndpointManager{policies: policies, profiles: profiles}
+	dir := PolDirnEgress
+	if ingress {
+		dir = PolDirnIngress
+	}
+	return m.extractRules(tiers, profileNames, dir)
+}
